@@ -282,7 +282,10 @@ Definition array_op (f : field) (xs : list value) (o : aop) : ares :=
       if fixed then AStuck else
       let '(lo, hi) := slice_bounds n a b in ADone (VList (take lo xs ++ drop hi xs))
   | ARemove _ x =>
+      (* list.remove compares with ==: an enumerator NAME is not equal to the stored enumerator number, so for remove
+         (unlike append/insert/extend/assignment, which normalise their argument) a name is simply a missing element *)
       if fixed || comp then AStuck else
+      if (match x, t with PStr _, TEnum _ => true | _, _ => false end) then ARaise EValue else
       match check_scalar t x with
       | Some v => match remove_first v vint_eqb xs with Some r => ADone (VList r) | None => ARaise EValue end
       | None => ARaise EValue
